@@ -100,6 +100,9 @@ example : (4098 + (arcInnerLayout 16 ⟨1, 1⟩).2) % 2 = 0 ∧ (arcInnerLayout 
 example : (4100 + (arcInnerLayout 32 ⟨0, 1⟩).2) % 2 = 0 ∧ (arcInnerLayout 32 ⟨0, 1⟩).1.align = 4 := by decide
 -- a hypothetical 8-bit word (k = 0, excluded by WordBits) would give odd data addresses
 example : (4096 + (arcInnerLayout 8 ⟨1, 1⟩).2) % 2 = 1 ∧ (arcInnerLayout 8 ⟨1, 1⟩).1.align ∣ 4096 ∧ ¬ WordBits 8 0 := by decide
+-- the hypotheses of C12_data_addr_even are satisfiable by non-trivial shapes
+example : (⟨3, 1⟩ : Layout).AlignIs 0 ∧ (⟨0, 32⟩ : Layout).AlignIs 5 ∧ WordBits 16 1 ∧ WordBits 32 2 ∧ WordBits 64 3 ∧
+    (arcInnerLayout 16 ⟨3, 1⟩).1.align ∣ 4098 ∧ (arcInnerLayout 64 ⟨0, 32⟩).1.align ∣ 4096 := by decide
 example : unionFromSecond 4104 = 4105 ∧ unionBorrow 4105 = (false, 4104) ∧ unionBorrow 4104 = (true, 4104) := by decide
 
 end C12
